@@ -353,6 +353,57 @@ def history(A, flavour, B, kind, base, names, origin):
     return rB, frames, dirty_defaults()
 
 
+def mutate_in_place(G, origin, arm=None):
+    """an in-place change of the caller's graph between two models that keeps every class's input valid: a detached extra source-to-sink edge;
+    for the cover classes (no values to keep consistent) alternatively a new arm a -> r -> b between two existing nodes, which changes
+    the reachability among the nodes the first model already asked about"""
+    if arm:
+        G.add_edge(arm[0], "r_new")
+        G.add_edge("r_new", arm[1])
+        return
+    if origin == "node":
+        G.add_node("m_in", flow=2)
+        G.add_node("m_out", flow=2)
+        G.add_edge("m_in", "m_out")
+    else:
+        G.add_edge("m_in", "m_out", flow=2)
+
+
+def mutation_history(A, B, base, names, origin, arm=None):
+    """model A on G; the caller then changes G in place; model B on the SAME object must equal model B on a freshly built equal graph"""
+    import copy
+    reset_defaults()
+    sh = make_shared("none", base, names)
+    if origin == "node":
+        sh = node_shared(sh)
+    run_model(A, kwargs_for(A, "plain", sh, base, origin))
+    mutate_in_place(sh["G"], origin, arm)
+    after, _ = run_model(B, kwargs_for(B, "plain", sh, base, origin))
+    reset_defaults()
+    fresh = make_shared("none", base, names)
+    if origin == "node":
+        fresh = node_shared(fresh)
+    mutate_in_place(fresh["G"], origin, arm)
+    ref, _ = run_model(B, kwargs_for(B, "plain", fresh, base, origin))
+    return after, ref
+
+
+def check_mutation(case):
+    A, B, base, names, origin = case["A"], case["B"], case["base"], _names(case["names"]), case["origin"]
+    arm = None
+    if case.get("arm"):
+        r = dict(zip(graphs.NAMES1, names))
+        arm = (r[BASES[base]["mid"][0]], r[BASES[base]["edges"][-1][1]])
+    after, ref = mutation_history(A, B, base, names, origin, arm)
+    if after == ref:
+        return dict(ok=True, nontrivial=True, detail=dict(result=str(ref)[:200]))
+    again = [mutation_history(A, B, base, names, origin, arm) for _ in range(2)]
+    if any(a == r for a, r in again):
+        return dict(ok=None, nontrivial=False, what="not reproducible (library non-determinism on this instance): %s after %s on %s" % (B, A, base))
+    return dict(ok=False, nontrivial=True, fingerprint="history: after the caller changed the graph object in place, %s still answers for the graph an earlier model saw" % B,
+                what="%s on %s graph (%s weights), changed in place after a %s model: got %s, a freshly built equal graph gives %s" % (B, base, origin, A, str(after)[:300], str(ref)[:300]))
+
+
 # ----------------------------------------------------------------------------------------------------------------------
 #  cases
 # ----------------------------------------------------------------------------------------------------------------------
@@ -401,6 +452,20 @@ def cases(tier):
                         if kind == "threads_other" and (names, origin) != (1, "edge"):
                             continue
                         yield dict(clause="history", A=A, flavour=flavour, B=B, kind=kind, base=base, names=names, origin=origin)
+    # ---- the caller changes the shared graph object in place between two models (same class, and one other class before)
+    for B in ALL_CLASSES:
+        if B in NO_GRAPH:
+            continue
+        for base in (("diamond", "cycle") if quick else tuple(BASES)):
+            if not _accepts_base(B, base):
+                continue
+            for A in dict.fromkeys([B, "MinPathCoverCycles" if base in CYCLIC_BASES else "MinPathCover"]):
+                if not _accepts_base(A, base):
+                    continue
+                for origin in (("edge",) if quick else ("edge", "node")):
+                    yield dict(clause="mutation", A=A, B=B, base=base, names=1, origin=origin)
+                if B in COVER_CLASSES:
+                    yield dict(clause="mutation", A=A, B=B, base=base, names=1, origin="edge", arm=True)
 
 
 def _names(i):
@@ -499,6 +564,8 @@ def check(case):
     _quiet()
     if case["clause"] == "history":
         return check_history(case)
+    if case["clause"] == "mutation":
+        return check_mutation(case)
     return check_frame_repeat(case)
 
 
